@@ -52,7 +52,9 @@ def dep_list(rng, names, nmax=3, p_opt=0.4, p_if=0.2):
             out.append(n)
     return out
 
-def gen_project(rng, size="small", features=("resolver", "env", "gen")):
+def gen_project(rng, size="small", features=("resolver", "env", "gen"), focus=None):
+    pc = 0.3 if focus == "conflicts" else 0.08      # conflicts per module
+    pu = 0.3 if focus == "conflicts" else 0.1       # provides_unique per module
     nctx = rng.randint(0, 3 if size == "small" else 4)
     ctx_names = ["c%d" % i for i in range(nctx)]
     contexts = [{"name": "default", "rules": base_rules(rng),
@@ -100,8 +102,8 @@ def gen_project(rng, size="small", features=("resolver", "env", "gen")):
                     if dl: m[key] = dl
             if pick(rng, 0.3): m["uses"] = [rng.choice(names) for _ in range(rng.randint(1, 2))]
             if pick(rng, 0.4): m["provides"] = rng.sample(FEATURES, rng.randint(1, 2))
-            if pick(rng, 0.1): m["provides_unique"] = [rng.choice(FEATURES)]
-            if pick(rng, 0.08): m["conflicts"] = [rng.choice(names)]
+            if pick(rng, pu): m["provides_unique"] = [rng.choice(FEATURES)]
+            if pick(rng, pc): m["conflicts"] = [rng.choice(FEATURES if pick(rng, 0.6) else names)]
             if pick(rng, 0.8):
                 srcs = [n + ".c"] + (["x%d.c" % rng.randint(0, 2)] if pick(rng, 0.3) else []) + ([n + ".S"] if pick(rng, 0.1) else [])
                 if pick(rng, 0.2): srcs.append({rng.choice(names): ["opt_" + n + ".c"]})
